@@ -17,6 +17,8 @@
 package postgresql
 
 import (
+	"sync/atomic"
+
 	log "github.com/sirupsen/logrus"
 )
 
@@ -29,6 +31,9 @@ type queryPacket struct {
 	bindPacket        *BindPacket
 	executePacket     *ExecutePacket
 	simpleQueryPacket string
+	// batch is the amount of Sync/Query packets forwarded to the database before this packet: the ReadyForQuery
+	// number batch+1 (after the start-up phase) ends the response to it.
+	batch uint64
 }
 
 func newQueryPacket(query string) queryPacket {
@@ -75,6 +80,10 @@ type PgProtocolState struct {
 	// transparent encryption and type awareness to the result rows
 	pendingQueryPackets *pendingPacketsList
 	registry            *PgPreparedStatementRegistry
+	// batchesSent counts the Sync/Query/FunctionCall packets forwarded to the database (client side, atomic),
+	// batchesDone the ReadyForQuery packets that answered them (database side).
+	batchesSent uint64
+	batchesDone uint64
 }
 
 // PacketType describes how to handle a message packet.
@@ -103,6 +112,40 @@ func NewPgProtocolState(registry *PgPreparedStatementRegistry) *PgProtocolState 
 // LastPacketType returns type of the last seen packet.
 func (p *PgProtocolState) LastPacketType() PacketType {
 	return p.lastPacketType
+}
+
+// currentBatch returns the number of the batch (packets up to the next Sync, or one simple Query) the client is sending.
+func (p *PgProtocolState) currentBatch() uint64 {
+	return atomic.LoadUint64(&p.batchesSent)
+}
+
+// endBatch is called before a packet that the database answers with ReadyForQuery is forwarded.
+func (p *PgProtocolState) endBatch() {
+	atomic.AddUint64(&p.batchesSent, 1)
+}
+
+// finishBatch handles ReadyForQuery: the database is done with a batch. Queries of that batch that are still pending
+// got no CommandComplete/EmptyQueryResponse/PortalSuspended: they failed, or the database skipped them after the error
+// of an earlier packet of the batch. They will never produce data rows, so they must not be paired with the rows of
+// the next queries.
+func (p *PgProtocolState) finishBatch() error {
+	// ReadyForQuery that ends the start-up phase answers no batch
+	if p.batchesDone < atomic.LoadUint64(&p.batchesSent) {
+		p.batchesDone++
+	}
+	for {
+		pending, err := p.pendingQueryPackets.GetPendingPacket(queryPacket{})
+		if err != nil {
+			return err
+		}
+		if pending == nil || pending.(queryPacket).batch >= p.batchesDone {
+			return nil
+		}
+		log.WithField("command", pending.(queryPacket)).Debugln("Drop pending query of a finished batch")
+		if err := p.pendingQueryPackets.RemoveNextPendingPacket(queryPacket{}); err != nil {
+			return err
+		}
+	}
 }
 
 // HandleClientPacket observes a packet from client to the database,
@@ -180,6 +223,12 @@ func (p *PgProtocolState) HandleDatabasePacket(packet *PacketHandler) error {
 			}
 			return nil
 		}
+		// ErrorResponse can answer a packet that has no pending query (Parse, Bind, Describe, ...), and the
+		// database skips all packets up to Sync after it: the failed and the skipped queries of the batch are
+		// removed when its ReadyForQuery arrives (no data row can come before that).
+		if packet.IsErrorResponse() {
+			return nil
+		}
 		log.WithField("command", pendingQueryPacket.(queryPacket)).Infoln("Command complete")
 		if err := p.pendingQueryPackets.RemoveNextPendingPacket(queryPacket{}); err != nil {
 			return err
@@ -191,7 +240,7 @@ func (p *PgProtocolState) HandleDatabasePacket(packet *PacketHandler) error {
 	// There is nothing interesting in the packet otherwise.
 	if packet.IsReadyForQuery() {
 		p.lastPacketType = ReadyForQueryPacket
-		return nil
+		return p.finishBatch()
 	}
 
 	// We are not interested in other packets, just pass them through.
